@@ -195,6 +195,31 @@ def run_property(prop: Prop, tier: str, seed: int, replay: str | None = None) ->
     py_fail, py_cov = prop.py_sweeps(tier)
     sweep_fail.extend(py_fail)
 
+    # ---- a proof / correspondence / sweep broke but no generated case violates the property: look further ----
+    searched = 0
+    if (not proof.ok or mism or sweep_fail) and not unknown_oracle and not replay:
+        t_s = time.time()
+        budget = 60 if tier == "quick" else 600
+        try:
+            extra = prop.generate(random.Random(seed * 7919 + 13), "thorough")
+        except Exception:
+            extra = []
+        for case in extra:
+            if time.time() - t_s > budget:
+                break
+            obs = _safe_run(prop, case)
+            searched += 1
+            if "harness_exception" in obs:
+                continue
+            fails = [f for f in prop.oracle(case, obs) if prop.finding_key(case, obs, f) not in known]
+            if fails:
+                small = _shrink_oracle(prop, case, _fkey(fails[0]))
+                out.violation(f"oracle (search after a broken proof/correspondence): {fails[0]}",
+                              {"kind": "oracle", "case": small, "observed": _safe_run(prop, small), "original_case": case,
+                               "failure": fails[0], "found_by": "counterexample search"}, True)
+                unknown_oracle[_fkey(fails[0])] = (case, obs, fails[0])
+                break
+
     # ---- verdicts for proof / correspondence breaks ----
     have_input = bool(unknown_oracle)
     if not proof.ok:
@@ -234,6 +259,7 @@ def run_property(prop: Prop, tier: str, seed: int, replay: str | None = None) ->
         "correspondence_cases": n_corr,
         "correspondence_mismatches": len(mism),
         "oracle_failures": oracle_fail,
+        "counterexample_search_cases": searched,
         "sweep_failures": sweep_fail,
         "impl_wall_s": round(t_impl, 2),
         "coq_eval_wall_s": round(coq_wall, 2),
